@@ -164,6 +164,12 @@ func (g *SG) simple() Stmt {
 		// injected targets: plain and compound, values stay small
 		g.Stats["assign_injected"]++
 		t := []string{"H.I64", "H.I16", "H.U32", "H.In.X", "H.Pn.X", "H.F64"}[r.Intn(6)]
+		if r.Intn(4) == 0 {
+			// a plain name that is a pointer-injected scalar: `=` and `:=` alike store through the pointer
+			// (the host sees the value; the rule does not read it back)
+			g.Stats["assign_pointer_injected_scalar"]++
+			return &Assign{Target: []string{"PI64", "PI8", "PU16"}[r.Intn(3)], Op: []string{"=", ":=", ":="}[r.Intn(3)], E: ilit(int64(r.Intn(50)))}
+		}
 		return &Assign{Target: t, Op: "=", E: ilit(int64(r.Intn(50)))}
 	case 9:
 		g.Stats["compound_injected"]++
